@@ -65,18 +65,25 @@ REPLAY_ARGS = [f"-arg={CORPUS}"]   # only read in -mode=corpus (label of the cor
 META = {
     "level": "proof",
     "technique": ("Lean 4 theorems over an executable token-level model of the PromQL printer and a reference precedence-climbing "
-                  "parser (tables regenerated from parse.y) + differential correspondence of both with the real lexer/ParseExpr/String() "
-                  "+ direct round-trip and no-panic oracle on the real code"),
-    "text": ("Kernel-checked: for every well-formed syntax tree (the shape the parser can produce) parsing the printed token sequence "
-             "yields the same tree up to removal of the duplicated metric-name matcher (parse_print), with the pre-fix printer shown "
-             "to violate it by `decide` witnesses. The model parser and printer are tied to the code by replaying, per generated source, "
-             "the real ParseExpr (accept/reject and tree) and the real String() (token sequence) against the compiled model; arbitrary "
-             "strings are fed to ParseExpr under recover."),
-    "note": ("Trusted: Lean kernel; the reading of 'equivalent tree' (position fields ignored, matchers as a set, nil = empty list, NaNs "
-             "identified); the model<->code correspondence on generated inputs (quick 6000, thorough 150000 sources); lexing is not "
-             "modelled (lexical round trip of numbers, strings, durations is correspondence/oracle only -> partial). The unchanged tree "
-             "violates the property (offsets and subquery ranges printed without unit, `offset [..]` list not printed, group_left/right "
-             "dropped without matching labels, `+Inf`, `{}`): fixes/C28-printer-roundtrip.diff. Known finding: a range or list offset "
-             "below 500ms is stored as 0 seconds and cannot be printed (sig zero-duration)."),
+                  "parser (precedence table, keyword lists, function names regenerated from parse.y / lex.go / functions.go) + "
+                  "differential correspondence of both with the real lexer / ParseExpr / String() + direct round-trip and no-panic "
+                  "oracle on the real code"),
+    "text": ("Kernel-checked: for every well-formed syntax tree (the shapes the parser produces: operands of an operator fit its "
+             "precedence/associativity, signs folded into number literals, subquery operands, argument counts, label/keyword lexing) "
+             "parsing the printed token sequence yields the same tree up to the duplicated metric-name matcher (parse_print, with "
+             "normSel_mem/normSel_fields showing the matcher SET and everything else is kept), with the default parser fuel proved "
+             "sufficient; `decide` witnesses show the printer before the fix violates it in six ways and that a 0-second range is "
+             "unprintable. The model parser and printer are tied to the code by replaying, per generated source, the real ParseExpr "
+             "(accept/reject and tree) and the real String() (token sequence) against the compiled model, and the model's `wf` is "
+             "evaluated on every tree the parser returns; arbitrary strings are fed to ParseExpr under recover."),
+    "note": ("Partial: (1) 'every tree the parser accepts is well-formed' is checked on every generated case (driver line `wf`), not "
+             "proved; (2) lexing is not modelled - the lexical round trip of numbers, strings, durations and the matcher order are "
+             "correspondence/oracle only, `@` timestamps are rendered exactly only for |ms| < 2^52; (3) 'never panics' is the direct "
+             "oracle only (escaping panics and runtime panics recovered inside ParseExpr). Trusted: Lean kernel; the reading of "
+             "'equivalent tree' (position fields ignored, matchers as a set, nil = empty list, NaNs identified); the correspondence "
+             "on generated inputs (quick 6000, thorough 150000 sources + corpus). The unchanged tree violates the property "
+             "(offsets and subquery ranges printed without unit, `offset [..]` list not printed, group_left/right dropped without "
+             "matching labels, `+Inf`, `{}`, `{__name__=\"\"}`): fixes/C28-printer-roundtrip.diff makes the check green. Known "
+             "finding zero-duration: a range or list offset below 500ms is stored as 0 seconds, which no duration literal denotes."),
     "design_ref": "DESIGN.md §6 C28",
 }
